@@ -25,6 +25,27 @@ expressions
   * `bitstruct.unpack("u<w>u<w>…", e)` with a tuple of names as target (→ big-endian bit fields, `Py.bitsBE`)
   * pure functions only: `return e`, `max(a, b)`, `min(a, b)`, `x or d` for an `Optional[int]` `x` (→ `Py.orNat`: `d` when `x` is None or 0),
     `obj.attr` / `obj.method()` of abstract records declared in the `PureSpec` (→ the Lean term the spec names)
+  * pure functions, loops: `for a, b in …` (flat tuple of names, elements of a tuple type), `sorted(xs)` of `Tuple[int, int]`
+    (lexicographic, `Py.sortedIntPair`), `[f(x) for x in xs]` / `(f(x) for x in xs)` as the iterable (one generator, no condition, `f(x)`
+    cannot raise; → `xs.map fun x => …`); a loop variable may not be a local declared before the loop (Python assigns, Lean shadows)
+  * pure functions, calls: `cast(T, e)` (typing.cast: → `e`, listed in the header), functions / methods WITH arguments that the
+    `PureSpec` maps to a hand-written Lean term (`calls`; may be declared raising: → `(← Py.call …)`), `EnumName.X` of a plain `Enum`
+    whose members the spec maps one-to-one to the constructors of a Lean inductive type (`==`/`!=` on those: identity),
+    statement `odxraise(msg[, OdxError|EncodeError|DecodeError])` (STRICT MODE: → `throw`; not a terminator for the flow analysis);
+    `if not isinstance(x, T): odxraise(…)` (a typing assertion written with odxraise: dropped and listed in the header);
+    an `Optional` value passed where the spec declares a non-optional parameter becomes `Py.unwrap` (the spec'd Lean term is not
+    defined on None; the equality theorems show that this never happens)
+  * pure functions, dicts: a local assigned ONCE a dict literal with pairwise different constant keys (enum members / int literals)
+    and int values (→ association list), read by `d[k]` only (→ `Py.dictGet`, `KeyError`)
+  * pure functions, sorting by key: `sorted(xs, key=lambda v: e, reverse=b)` as an expression, `e` a provably non-negative int that may
+    raise (→ `(← Py.sortedByKeyM (fun v => do pure e) b xs)`: keys of all elements first, then a stable sort, stable in BOTH directions)
+  * pure functions, attributes: chains `a.b.c` whose every link the spec declares; a link may be another translated property
+    (`(← fE ·)`); `getattr(obj, "name", <default>)` where the spec names the term that stands for "the attribute or that default"
+  * pure functions, strings (`str` = `List Char`): `s[i]` for a provably non-negative `i` (→ `Py.getItem`, a one-character string,
+    usable only through methods the spec declares for it, e.g. `isdigit`), `len(s)`, `==`, f-strings whose interpolated values are
+    all `str` without conversion / format spec (→ `++`; literal parts printable ASCII)
+  * function headers: decorators `property`, `override`, `staticmethod` only; parameter defaults must be constants (they concern the
+    callers; the rendering takes every parameter explicitly); annotations are never consulted
 typing (static, flow-insensitive per variable; the translator infers it)
   * `Nat` (provably non-negative int), `Int`, `Bool`, `Bytes`, `Option T`. A variable's type is the join of everything assigned to it.
   * operations that Python would reject at run time on `None` become `Py.unwrap` (→ `Py.Err.typeError`)
@@ -51,6 +72,8 @@ from dataclasses import dataclass, field
 from pathlib import Path
 
 NAT, INT, BOOL, BYTES = "Nat", "Int", "Bool", "Bytes"
+STR = "List Char"                     # a Python `str` (sequence of code points)
+CHAR1 = ("Rec", "Char")               # a one-character `str` obtained by indexing a `str` (Python has no character type)
 LEAN_KEYWORDS = {"from", "at", "end", "open", "fun", "do", "then", "have", "show", "let", "in", "if", "else", "match", "with",
                  "by", "where", "def", "theorem", "structure", "class", "instance", "return", "for", "mut", "type", "Type",
                  "namespace", "section", "variable", "import", "export", "macro", "syntax", "deriving", "this", "self"}
@@ -79,6 +102,22 @@ def strip_opt(t):
     return t[1] if is_opt(t) else t
 
 
+def tup(*ts):
+    return ("Tuple", tuple(ts))
+
+
+def is_tuple(t):
+    return isinstance(t, tuple) and t[0] == "Tuple"
+
+
+def is_list(t):
+    return isinstance(t, tuple) and t[0] == "List"
+
+
+def is_dict(t):
+    return isinstance(t, tuple) and t[0] == "Dict"
+
+
 def join(a, b, node=None):
     """least upper bound of two types (None = not known yet)"""
     if a == b:
@@ -105,6 +144,10 @@ def lean_ty(t):
         return f"List {inner}" if " " not in inner else f"List ({inner})"
     if isinstance(t, tuple) and t[0] == "Rec":
         return t[1]
+    if is_dict(t):                                                    # a dict literal: association list, first match
+        return f"List ({lean_ty(t[1])} × {lean_ty(t[2])})"
+    if is_tuple(t):
+        return " × ".join(lean_ty(x) if " " not in lean_ty(x) else f"({lean_ty(x)})" for x in t[1])
     return t
 
 
@@ -142,6 +185,8 @@ class Translator:
         self.enums = self._read_enums(module)
         self.out = []
         self.dropped = []        # dropped assert isinstance(...)
+        self.casts = []          # typing.cast(T, e) rendered as e
+        self.enum_uses = {}      # `Enum.X` of a non-int enum -> Lean constructor (from the spec)
         self.notes = []
         self.vt = {}             # variable -> type (inference result)
         self.scopes = []         # stack of sets of declared variables
@@ -152,6 +197,7 @@ class Translator:
         self.emitting = False
         self.pure_ret = None     # return type of a pure function
         self.in_loop = 0
+        self.comp_vars = set()   # variables bound by comprehensions (own scope in Python 3)
         self.raising = False     # the expression being translated contains an operation that can raise
 
     # ------------------------------------------------------------------------------------------------ module facts
@@ -171,8 +217,19 @@ class Translator:
     # ------------------------------------------------------------------------------------------------ output helpers
     def emit(self, ind, text, node=None):
         if node is not None and self.emitting:
-            first = self.src_lines[node.lineno - 1].strip()
-            self.out.append("  " * ind + f"-- L{node.lineno}: {first}")
+            # the whole statement (a compound statement: its header up to the line before its body)
+            last = getattr(node, "end_lineno", node.lineno) or node.lineno
+            body = getattr(node, "body", None)
+            if isinstance(body, list) and body and hasattr(body[0], "lineno"):
+                last = max(node.lineno, body[0].lineno - 1)
+                while last > node.lineno and not self.src_lines[last - 1].strip():
+                    last -= 1
+                while last > node.lineno and self.src_lines[last - 1].strip().startswith("#"):
+                    last -= 1
+            for k in range(node.lineno, last + 1):
+                txt = self.src_lines[k - 1].strip()
+                if txt and not txt.startswith("#"):
+                    self.out.append("  " * ind + f"-- L{k}: {txt}")
         if self.emitting:
             self.out.append("  " * ind + text)
 
@@ -233,12 +290,43 @@ class Translator:
             if val < 0:
                 return E(f"(({val} : Int) /- {n.value.id}.{n.attr} -/)", INT, lit=val)
             return E(f"({val} /- {n.value.id}.{n.attr} -/)", NAT, lit=val)
+        if self.pure is not None and isinstance(n.value, ast.Name) and n.value.id in self.pure.enums:
+            return self._enum_member(n)
         if self.pure is not None:
             rec, obj = self._record_of(n.value)
             if rec is not None and (rec, n.attr) in self.pure.attrs:
                 tpl, ty = self.pure.attrs[(rec, n.attr)]
+                if "←" in tpl:                                            # a property that is itself a translated function
+                    self.raising = True
                 return E(tpl.format(obj), ty)
         raise Unsupported(n, "attribute access outside the subset")
+
+    def _enum_member(self, n):
+        """`EnumName.X` of a plain `Enum` declared in the spec: a constructor of the Lean inductive type the spec names. The spec
+        must map EVERY member of the Python class (a member added to the source has no constructor in the model: loud failure);
+        members are compared by identity in Python (`Enum` does not override `__eq__`), by constructor in Lean."""
+        cls, (lean_type, members) = n.value.id, self.pure.enums[n.value.id]
+        src = self._enum_class_members(cls, n)
+        if sorted(src) != sorted(members):
+            raise Unsupported(n, f"members of enum {cls} in the source {sorted(src)} differ from the ones the spec maps {sorted(members)}")
+        if n.attr not in members:
+            raise Unsupported(n, f"{cls}.{n.attr} is not a member of the enum")
+        self.enum_uses[f"{cls}.{n.attr}"] = f"{lean_type}.{members[n.attr]}"
+        return E(f"{lean_type}.{members[n.attr]}", ("Rec", lean_type))
+
+    def _enum_class_members(self, cls, node):
+        for c in self.module.body:
+            if isinstance(c, ast.ClassDef) and c.name == cls:
+                if not any(getattr(b, "id", getattr(b, "attr", "")) == "Enum" for b in c.bases):
+                    raise Unsupported(node, f"{cls} is not a plain Enum")
+                out = []
+                for st in c.body:
+                    if isinstance(st, ast.Assign) and len(st.targets) == 1 and isinstance(st.targets[0], ast.Name):
+                        out.append(st.targets[0].id)
+                    elif isinstance(st, ast.FunctionDef) and st.name in ("__eq__", "__ne__", "__hash__"):
+                        raise Unsupported(node, f"{cls} overrides {st.name}")
+                return out
+        raise Unsupported(node, f"enum class {cls} is not defined in this module")
 
     def _record_of(self, v):
         """(record type name, Lean term) of an expression that denotes a record of the pure-function spec"""
@@ -250,7 +338,61 @@ class Translator:
                 if self.emitting and not self.declared(v.id):
                     raise Unsupported(v, f"local `{v.id}` is possibly unbound here")
                 return t[1], mangle(v.id)
+        if isinstance(v, ast.Subscript):
+            e = self.ex(v)
+            if isinstance(e.ty, tuple) and e.ty[0] == "Rec":
+                return e.ty[1], e.code
+        if isinstance(v, ast.Attribute) and not (isinstance(v.value, ast.Name) and v.value.id in self.enums):
+            e = self.ex(v)                                                 # a chain `a.b.c`: every link must be declared in the spec
+            if isinstance(e.ty, tuple) and e.ty[0] == "Rec":
+                return e.ty[1], e.code
         return None, None
+
+    def ex_Dict(self, n):
+        """`{k1: v1, …}` with pairwise different constant keys (enum members of the spec or int literals) and int values: an
+        association list; only `d[k]` reads it (→ `Py.dictGet`, `KeyError` when absent). It is never mutated in the subset."""
+        if not n.keys or any(k is None for k in n.keys):
+            raise Unsupported(n, "empty dict literal / `**` in a dict literal")
+        ks, vs, seen = [], [], set()
+        for k, v in zip(n.keys, n.values):
+            ke, ve = self.ex(k), self.ex(v)
+            ident = ke.code
+            is_const = ke.lit is not None or (isinstance(ke.ty, tuple) and ke.ty[0] == "Rec" and isinstance(k, ast.Attribute))
+            if not is_const:
+                raise Unsupported(k, "dict key is not a constant (an int literal or an enum member)")
+            if ident in seen:
+                raise Unsupported(k, "the same key twice in a dict literal")
+            seen.add(ident)
+            ks.append(ke)
+            vs.append(ve)
+        kt = vt = None
+        for ke in ks:
+            kt = join(kt, ke.ty, n)
+        for ve in vs:
+            vt = join(vt, ve.ty, n)
+        if vt not in (NAT, INT) or is_opt(kt):
+            raise Unsupported(n, "dict literal: values must be ints, keys must not be None")
+        items = ", ".join(f"({self.coerce(ke, kt, n)}, {self.coerce(ve, vt, n)})" for ke, ve in zip(ks, vs))
+        return E(f"[{items}]", ("Dict", kt, vt))
+
+    def ex_JoinedStr(self, n):
+        """an f-string whose interpolated values are all `str` (no conversion, no format spec): concatenation"""
+        parts = []
+        for v in n.values:
+            if isinstance(v, ast.Constant) and isinstance(v.value, str):
+                if not all(32 <= ord(c) < 127 and c not in '"\\' for c in v.value):
+                    raise Unsupported(n, "non-ASCII / escaped text in an f-string")
+                parts.append(f'"{v.value}".toList')
+            elif isinstance(v, ast.FormattedValue) and v.conversion == -1 and v.format_spec is None:
+                e = self.ex(v.value)
+                if e.ty is None:
+                    return E("_", STR)
+                if e.ty != STR:
+                    raise Unsupported(n, f"f-string interpolation of a {lean_ty(e.ty)} (only str)")
+                parts.append(e.code)
+            else:
+                raise Unsupported(n, "f-string with conversion / format spec")
+        return E("(" + " ++ ".join(parts or ['([] : List Char)']) + ")", STR)
 
     def ex_UnaryOp(self, n):
         if isinstance(n.op, ast.USub):
@@ -362,6 +504,12 @@ class Translator:
             if BOOL in (a.ty, b.ty) and a.ty != b.ty:
                 raise Unsupported(n, "comparison of a bool with a non-bool")
             t = join(a.ty, b.ty, n)                                        # None == 0 is simply False: compare at the joined type
+            base = strip_opt(t)
+            if isinstance(base, tuple) and base[0] == "Rec":
+                if not (self.pure and base[1] in [v[0] for v in self.pure.enums.values()]):
+                    raise Unsupported(n, f"== on {lean_ty(base)}: only enum members are compared (by identity); __eq__ of other records is outside the subset")
+            elif base not in (NAT, INT, BOOL, BYTES, STR):
+                raise Unsupported(n, f"== on {lean_ty(base)}")
             if is_opt(t) and t[1] is None:
                 raise Unsupported(n, "comparison of None with None")
             return E(f"({self.coerce(a, t, n)} {sym} {self.coerce(b, t, n)})", BOOL)
@@ -375,7 +523,7 @@ class Translator:
         f = n.func
         if isinstance(f, ast.Name) and f.id == "len" and len(n.args) == 1 and not n.keywords:
             a = self.ex(n.args[0])
-            if strip_opt(a.ty) not in (BYTES, None) and not (isinstance(a.ty, tuple) and a.ty[0] == "List"):
+            if strip_opt(a.ty) not in (BYTES, STR, None) and not (isinstance(a.ty, tuple) and a.ty[0] == "List"):
                 raise Unsupported(n, "len of a non-sequence")
             if a.ty is None:
                 return E("_", NAT)
@@ -396,12 +544,65 @@ class Translator:
                 return E("_", None)
             t = join(a.ty, b.ty, n)
             return E(f"({f.id} {self.coerce(a, t, n)} {self.coerce(b, t, n)})", t)
+        if isinstance(f, ast.Name) and f.id == "sorted":
+            return self._sorted(n)
+        if isinstance(f, ast.Name) and f.id == "getattr" and len(n.args) == 3 and not n.keywords and self.pure is not None:
+            # getattr(obj, "name", default): the spec names a term that already stands for "the attribute, or the default when the
+            # object has none" and states which default that is
+            rec, obj = self._record_of(n.args[0])
+            nm = n.args[1]
+            if rec is not None and isinstance(nm, ast.Constant) and isinstance(nm.value, str) and (rec, nm.value) in self.pure.getattr_defaults:
+                tpl, ty, default_src = self.pure.getattr_defaults[(rec, nm.value)]
+                if ast.unparse(n.args[2]) != default_src:
+                    raise Unsupported(n, f"default of getattr is not `{default_src}`")
+                return E(tpl.format(obj), ty)
+            raise Unsupported(n, "getattr outside the subset")
+        if isinstance(f, ast.Name) and f.id == "cast" and len(n.args) == 2 and not n.keywords:
+            # typing.cast(T, e) returns e unchanged at run time; the type T is not consulted (the translator infers its own)
+            if not self._imported_from("typing", "cast"):
+                raise Unsupported(n, "`cast` is not typing.cast in this module")
+            note = f"L{n.lineno}: cast({ast.unparse(n.args[0])}, …)"
+            if note not in self.casts:
+                self.casts.append(note)
+            return self.ex(n.args[1])
         if self.pure is not None and isinstance(f, ast.Attribute) and not n.args and not n.keywords:
             rec, obj = self._record_of(f.value)
             if rec is not None and (rec, f.attr) in self.pure.methods:
                 tpl, ty = self.pure.methods[(rec, f.attr)]
                 return E(tpl.format(obj), ty)
+        if self.pure is not None and not n.keywords:
+            # a function / method that is not translated: the spec names the hand-written Lean term that stands for it
+            key, obj = None, ""
+            if isinstance(f, ast.Name) and (None, f.id) in self.pure.calls:
+                if not self._imported_name(f.id) and not any(isinstance(d, ast.FunctionDef) and d.name == f.id for d in self.module.body):
+                    raise Unsupported(n, f"`{f.id}` is neither imported nor defined at module level")
+                if f.id in self.vt:
+                    raise Unsupported(n, f"`{f.id}` is also a local")
+                key = (None, f.id)
+            elif isinstance(f, ast.Attribute):
+                rec, obj = self._record_of(f.value)
+                key = (rec, f.attr) if rec is not None else None
+            if key in self.pure.calls:
+                tpl, arg_tys, ret, raises = self.pure.calls[key]
+                if len(arg_tys) != len(n.args):
+                    raise Unsupported(n, f"{key[1]} takes {len(arg_tys)} positional argument(s) in the spec")
+                args = []
+                for a, want in zip(n.args, arg_tys):
+                    if isinstance(a, ast.Starred):
+                        raise Unsupported(n, "starred argument")
+                    e = self.ex(a)
+                    args.append("_" if e.ty is None else self.coerce(e, want, n))     # arguments are evaluated left to right
+                if raises:
+                    self.raising = True
+                return E(tpl.format(*args, obj=obj), ret)
         raise Unsupported(n, "call outside the subset")
+
+    def _imported_from(self, module, name):
+        for st in self.module.body:
+            if isinstance(st, ast.ImportFrom) and st.module == module and st.level == 0 \
+                    and any(a.name == name and a.asname in (None, name) for a in st.names):
+                return True
+        return False
 
     def ex_Subscript(self, n):
         # per-slot state read
@@ -412,6 +613,20 @@ class Translator:
         a = self.ex(n.value)
         if a.ty is None:
             return E("_", None)
+        if is_dict(a.ty):
+            if isinstance(n.slice, ast.Slice):
+                raise Unsupported(n, "slice of a dict")
+            k = self.ex(n.slice)
+            if k.ty is None:
+                return E("_", a.ty[2])
+            self.raising = True                                            # KeyError
+            return E(f"(← Py.dictGet {a.code} {self.coerce(k, a.ty[1], n)})", a.ty[2])
+        if a.ty == STR and not isinstance(n.slice, ast.Slice):
+            i = self._num(self.ex(n.slice), n)
+            if i.ty != NAT:
+                raise Unsupported(n, "index of a str that is not provably non-negative")
+            self.raising = True                                            # IndexError
+            return E(f"(← Py.getItem {a.code} {i.code})", CHAR1)
         if strip_opt(a.ty) != BYTES:
             raise Unsupported(n, "indexing of a non-byte-sequence")
         base = self.coerce(a, BYTES, n)
@@ -458,14 +673,22 @@ class Translator:
                 try:
                     if isinstance(st, ast.Assign) and len(st.targets) == 1:
                         self._infer_assign(st.targets[0], st.value, st)
+                    elif isinstance(st, ast.AnnAssign) and st.value is not None and isinstance(st.target, ast.Name):
+                        self._infer_assign(st.target, st.value, st)        # the annotation is not consulted
                     elif isinstance(st, ast.AugAssign) and isinstance(st.target, ast.Name):
                         v = ast.BinOp(left=ast.Name(id=st.target.id, ctx=ast.Load()), op=st.op, right=st.value)
                         ast.copy_location(v, st)
                         ast.fix_missing_locations(v)
                         self._bind(st.target.id, self.ex(v).ty, st)
-                    elif isinstance(st, ast.For) and isinstance(st.target, ast.Name):
+                    elif isinstance(st, ast.For):
+                        names, is_tuple_target = self._for_targets(st)
                         it = self._iterable(st.iter)
-                        self._bind(st.target.id, it.ty[1] if it.ty else None, st)
+                        el = it.ty[1] if it.ty else None
+                        if not is_tuple_target:
+                            self._bind(names[0], el, st)
+                        elif is_tuple(el) and len(el[1]) == len(names):
+                            for v, t in zip(names, el[1]):
+                                self._bind(v, t, st)
                     elif isinstance(st, ast.Return) and st.value is not None and self.pure is not None:
                         self.pure_ret = join(self.pure_ret, self.ex(st.value).ty, st)
                 except Unsupported:
@@ -542,7 +765,59 @@ class Translator:
         if isinstance(v, ast.Call) and isinstance(v.func, ast.Attribute) and isinstance(v.func.value, ast.Name) \
                 and v.func.value.id == "self" and self.slot and v.func.attr in self.slot.events:
             return self._callback(st, v, ind)
+        if isinstance(v, ast.Call) and isinstance(v.func, ast.Name) and v.func.id == "odxraise":
+            return self._odxraise(st, v, ind)
         raise Unsupported(st, "expression statement outside the subset")
+
+    ODX_ERRORS = {"OdxError": "odxError", "EncodeError": "encodeError", "DecodeError": "decodeError"}
+
+    def _odxraise(self, st, call, ind):
+        """`odxraise(msg[, ErrorType])` in STRICT MODE (`exceptions.strict_mode = True`, the default and the mode the models follow):
+        raises ErrorType (default OdxError). In non-strict mode it logs and *returns*; that mode is outside this rendering, but the
+        statements after the call are still translated as reachable (the translator does not treat the call as a terminator)."""
+        if not self._imported_name("odxraise"):
+            raise Unsupported(st, "`odxraise` is not imported in this module")
+        args = list(call.args)
+        kw = {k.arg: k.value for k in call.keywords}
+        if len(args) > 2 or set(kw) - {"message", "error_type"} or (len(args) > 0 and "message" in kw) or (len(args) > 1 and "error_type" in kw):
+            raise Unsupported(st, "odxraise(message, error_type)")
+        msg = args[0] if args else kw.get("message")
+        ety = args[1] if len(args) > 1 else kw.get("error_type")
+        if msg is not None:
+            self._message(msg)
+        kind = "OdxError"
+        if ety is not None:
+            if not (isinstance(ety, ast.Name) and ety.id in self.ODX_ERRORS):
+                raise Unsupported(st, "error type of odxraise outside the subset")
+            kind = ety.id
+        note = "`odxraise` is rendered for strict mode (exceptions.strict_mode = True): it raises"
+        if note not in self.notes:
+            self.notes.append(note)
+        self.emit(ind, f"throw Py.Err.{self.ODX_ERRORS[kind]}", st)
+        return False
+
+    def _message(self, m):
+        """a diagnostic text: a string literal, or an f-string over names / attribute chains (formatting those does not raise for the
+        dataclasses, enums, ints and strings of the subset); its content is not modelled"""
+        if isinstance(m, ast.Constant) and isinstance(m.value, str):
+            return
+        if isinstance(m, ast.JoinedStr):
+            for part in m.values:
+                if isinstance(part, ast.Constant):
+                    continue
+                v = part.value
+                while isinstance(v, ast.Attribute):
+                    v = v.value
+                if not isinstance(v, ast.Name) or part.format_spec is not None:
+                    raise Unsupported(m, "f-string over more than names / attributes")
+            return
+        raise Unsupported(m, "message is not a string literal")
+
+    def _imported_name(self, name):
+        for st in self.module.body:
+            if isinstance(st, ast.ImportFrom) and any((a.asname or a.name) == name and a.name == name for a in st.names):
+                return True
+        return False
 
     def _event_arg(self, a, want, node):
         if isinstance(a, ast.Name) and self.alias.get(a.id):
@@ -606,6 +881,10 @@ class Translator:
 
     def _assign_local(self, v, e: E, st, ind, value_node=None, comment=True):
         cst = st if comment else None
+        if self.pure is not None and v in self.pure.params:
+            raise Unsupported(st, f"assignment to the parameter `{v}`")
+        if is_dict(self.vt.get(v)) and self.declared(v):
+            raise Unsupported(st, f"re-assignment of the dict `{v}`")
         if v == "_":
             self.emit(ind, f"let _ := {e.code}", cst)
             return
@@ -702,7 +981,22 @@ class Translator:
             return self._assign_field(fld, self.ex(v), st, ind, v)
         raise Unsupported(st, "augmented assignment target outside the subset")
 
+    def _typing_guard(self, st):
+        """`if not isinstance(x, T): odxraise(…)` — a typing assertion written with odxraise: dropped like `assert isinstance`"""
+        t = st.test
+        return (isinstance(t, ast.UnaryOp) and isinstance(t.op, ast.Not) and isinstance(t.operand, ast.Call)
+                and isinstance(t.operand.func, ast.Name) and t.operand.func.id == "isinstance" and not st.orelse
+                and len(st.body) == 1 and isinstance(st.body[0], ast.Expr) and isinstance(st.body[0].value, ast.Call)
+                and isinstance(st.body[0].value.func, ast.Name) and st.body[0].value.func.id == "odxraise"
+                and all(isinstance(a, ast.Constant) for a in st.body[0].value.args) and not st.body[0].value.keywords)
+
     def st_If(self, st, ind, kw="if"):
+        if kw == "if" and self._typing_guard(st):
+            d = f"L{st.lineno}: {ast.unparse(st.test)} → {ast.unparse(st.body[0])}"
+            if d not in self.dropped:
+                self.dropped.append(d)
+            self.emit(ind, "-- (dropped: a typing assertion)", st)
+            return False
         c = self.ex(st.test)
         if c.ty != BOOL:
             raise Unsupported(st.test, "condition is not a boolean expression (truthiness is outside the subset)")
@@ -744,25 +1038,127 @@ class Translator:
 
     # ------------------------------------------------------------------------------------------------ loops (pure functions)
     def _iterable(self, it):
-        if isinstance(it, ast.Call) and isinstance(it.func, ast.Name) and it.func.id == "sorted" and len(it.args) == 1 and not it.keywords:
-            inner = self._iterable(it.args[0])
-            if inner.ty and inner.ty[1] not in (NAT, INT, None):
-                raise Unsupported(it, "sorted() of non-integers")
-            fn = "Py.sortedNat" if inner.ty and inner.ty[1] == NAT else "Py.sortedInt"
-            return E(f"({fn} {inner.code})", inner.ty)
+        if isinstance(it, (ast.GeneratorExp, ast.ListComp)):
+            return self._comprehension(it)
         e = self.ex(it)
-        if e.ty is not None and not (isinstance(e.ty, tuple) and e.ty[0] == "List"):
+        if e.ty is not None and not is_list(e.ty):
             raise Unsupported(it, "iteration over a non-list")
         return e
+
+    def ex_ListComp(self, n):
+        return self._comprehension(n)
+
+    def ex_List(self, n):
+        raise Unsupported(n, "list literal outside the subset")
+
+    def _sorted(self, n):
+        """`sorted(xs)` for ints and int pairs; `sorted(xs, key=lambda v: e, reverse=b)` with a natural-number key `e`.
+        Python computes the keys of all elements first, in order (an exception of the key function propagates), then sorts
+        stably; `reverse=True` sorts descending and still keeps elements with equal keys in their original order."""
+        kw = {k.arg: k.value for k in n.keywords}
+        if len(n.args) != 1 or set(kw) - {"key", "reverse"} or None in kw:
+            raise Unsupported(n, "sorted(xs[, key=…][, reverse=…])")
+        inner = self._iterable(n.args[0])
+        el = inner.ty[1] if inner.ty else None
+        if "key" not in kw:
+            if "reverse" in kw:
+                raise Unsupported(n, "sorted(reverse=…) without key")
+            if el in (NAT, INT, None):
+                fn = "Py.sortedNat" if el == NAT else "Py.sortedInt"
+            elif el == tup(INT, INT):
+                fn = "Py.sortedIntPair"                                    # tuples compare lexicographically
+            else:
+                raise Unsupported(n, f"sorted() of {lean_ty(el)} (only int and Tuple[int, int] with both components typed Int)")
+            return E(f"({fn} {inner.code})", inner.ty)
+        lam = kw["key"]
+        if not (isinstance(lam, ast.Lambda) and len(lam.args.args) == 1 and not lam.args.defaults and not lam.args.vararg
+                and not lam.args.kwarg and not lam.args.kwonlyargs and not lam.args.posonlyargs):
+            raise Unsupported(n, "key must be a one-parameter lambda")
+        v = lam.args.args[0].arg
+        if v in self.vt and self.vt[v] is not None and v not in self.comp_vars:
+            raise Unsupported(n, f"lambda parameter `{v}` has the name of a local or parameter")
+        self.comp_vars.add(v)
+        self.vt[v] = el
+        rev = E("false", BOOL)
+        if "reverse" in kw:
+            saved, self.raising = self.raising, False
+            rev = self.ex(kw["reverse"])
+            if self.raising:
+                raise Unsupported(n, "reverse= can raise")
+            self.raising = saved
+            if rev.ty not in (BOOL, None):
+                raise Unsupported(n, "reverse= is not a bool (truthiness is outside the subset)")
+        self.scopes.append({v})
+        saved, self.raising = self.raising, False
+        try:
+            key = self.ex(lam.body)                                        # may raise: rendered in a `do` block of its own
+        finally:
+            self.scopes.pop()
+            self.raising = saved
+        if key.ty is None or el is None:
+            return E("_", inner.ty)
+        if key.ty != NAT:
+            raise Unsupported(n, f"sort key of type {lean_ty(key.ty)} (only provably non-negative ints)")
+        self.raising = True
+        return E(f"(← Py.sortedByKeyM (fun {mangle(v)} => do pure {key.code}) {rev.code} {inner.code})", inner.ty)
+
+    def _comprehension(self, n):
+        """`[f(x) for x in xs]` / `(f(x) for x in xs)` consumed once, in order → `xs.map fun x => f x`; `f(x)` must not raise"""
+        if len(n.generators) != 1:
+            raise Unsupported(n, "nested comprehension")
+        g = n.generators[0]
+        if g.ifs or g.is_async or not isinstance(g.target, ast.Name):
+            raise Unsupported(n, "comprehension with a condition / a non-name target")
+        v = g.target.id
+        src = self._iterable(g.iter)
+        el = src.ty[1] if src.ty else None
+        if v in self.vt and self.vt[v] is not None and v not in self.comp_vars:
+            raise Unsupported(n, f"comprehension variable `{v}` has the name of a local or parameter")
+        self.comp_vars.add(v)
+        self.vt[v] = el
+        self.scopes.append({v})
+        saved, self.raising = self.raising, False
+        try:
+            body = self.ex(n.elt)
+            if self.raising:
+                raise Unsupported(n.elt, "element expression of a comprehension can raise")
+        finally:
+            self.scopes.pop()
+            self.raising = saved
+        if body.ty is None or el is None:
+            return E("_", None)
+        return E(f"({src.code}.map fun {mangle(v)} => {body.code})", ("List", body.ty))
+
+    def _for_targets(self, st):
+        """names bound by the loop target: `v` or `a, b` (a flat tuple of names)"""
+        t = st.target
+        if isinstance(t, ast.Name):
+            return [t.id], False
+        if isinstance(t, ast.Tuple) and t.elts and all(isinstance(e, ast.Name) for e in t.elts):
+            names = [e.id for e in t.elts]
+            if len(set(names)) != len(names):
+                raise Unsupported(st, "a name occurs twice in the loop target")
+            return names, True
+        raise Unsupported(st, "loop target must be a name or a flat tuple of names")
 
     def st_For(self, st, ind):
         if self.slot:
             raise Unsupported(st, "loops in a slot method")
-        if st.orelse or not isinstance(st.target, ast.Name):
-            raise Unsupported(st, "for/else or a non-name loop target")
+        if st.orelse:
+            raise Unsupported(st, "for/else")
+        names, is_tuple_target = self._for_targets(st)
         it = self._iterable(st.iter)
-        self.emit(ind, f"for {mangle(st.target.id)} in {it.code} do", st)
-        self.scopes.append({st.target.id})
+        el = it.ty[1] if it.ty else None
+        if is_tuple_target and not (is_tuple(el) and len(el[1]) == len(names)):
+            raise Unsupported(st, f"cannot unpack elements of type {lean_ty(el)} into {len(names)} names")
+        for v in names:
+            # Python keeps the loop variable alive after the loop; Lean does not: a later use is then 'possibly unbound'.
+            # A loop variable that is also a local declared outside would be *assigned* by Python but *shadowed* in Lean.
+            if self.declared(v):
+                raise Unsupported(st, f"loop variable `{v}` is also a local declared before the loop")
+        pat = mangle(names[0]) if not is_tuple_target else "(" + ", ".join(mangle(v) for v in names) + ")"
+        self.emit(ind, f"for {pat} in {it.code} do", st)
+        self.scopes.append(set(names))
         self.in_loop += 1
         self.block(st.body, ind + 1)
         self.in_loop -= 1
@@ -981,6 +1377,14 @@ class PureSpec:
     binders: str                 # Lean binders of the generated function
     attrs: dict = field(default_factory=dict)      # (record, attribute) -> (Lean template, `{}` = the object; type)
     methods: dict = field(default_factory=dict)    # (record, argument-less method) -> (Lean template, type)
+    # functions / methods WITH arguments that are not translated but stand for a hand-written Lean term:
+    # (record | None for a module-level function, name) -> (template: `{0}`, `{1}` … = arguments, `{obj}` = the object;
+    #                                                        [argument types], result type, can it raise?)
+    calls: dict = field(default_factory=dict)
+    getattr_defaults: dict = field(default_factory=dict)   # (record, attribute) -> (template, type, source text of the default)
+    enums: dict = field(default_factory=dict)      # plain `Enum` class -> (Lean inductive type, {member -> constructor}); ALL members
+    open_ns: str = ""                              # further namespaces opened in the generated file
+    prelude: list = field(default_factory=list)    # hand-written Lean lines emitted before the function (glue named by templates)
 
 
 def translate_pure_function(src: str, func: str, spec: PureSpec, namespace: str, imports, rel_path: str, lean_name=None,
@@ -990,8 +1394,18 @@ def translate_pure_function(src: str, func: str, spec: PureSpec, namespace: str,
     fn = _find_func(_find_class(module, cls_name) if cls_name else module, func)
     tr = Translator(module, lines, pure=spec)
     a = fn.args
-    if a.vararg or a.kwarg or a.kwonlyargs or a.defaults or [x.arg for x in a.args] != list(spec.params):
+    if a.vararg or a.kwarg or a.kwonlyargs or a.posonlyargs or [x.arg for x in a.args] != list(spec.params):
         raise Unsupported(fn, f"expected parameters {list(spec.params)}")
+    for d in a.defaults:                                                   # defaults concern the callers, not the body
+        if not isinstance(d, ast.Constant):
+            raise Unsupported(d, "a parameter default that is not a constant (evaluated once, possibly shared)")
+    if a.defaults:
+        names = [x.arg for x in a.args][-len(a.defaults):]
+        tr.notes.append("parameter defaults (they concern the callers; the rendering takes every parameter explicitly): " +
+                        ", ".join(f"{k}={ast.unparse(d)}" for k, d in zip(names, a.defaults)))
+    for d in fn.decorator_list:
+        if ast.unparse(d) not in ("property", "override", "staticmethod"):
+            raise Unsupported(d, "decorator outside the subset (property, override, staticmethod)")
     body = list(fn.body)
     while body and isinstance(body[0], ast.Expr) and isinstance(body[0].value, ast.Constant) and isinstance(body[0].value.value, str):
         body.pop(0)
@@ -1015,14 +1429,34 @@ def translate_pure_function(src: str, func: str, spec: PureSpec, namespace: str,
     o.append("    records (python attribute / method ↔ Lean term):")
     for (rec, at), (tpl, ty) in list(spec.attrs.items()) + list(spec.methods.items()):
         o.append(f"      {rec}.{at} ↔ {tpl.format('·') or at} : {lean_ty(ty)}")
+    for (rec, at), (tpl, ty, dflt) in spec.getattr_defaults.items():
+        o.append(f"      getattr({rec}, {at!r}, {dflt}) ↔ {tpl.format('·')} : {lean_ty(ty)}   (the attribute, or {dflt} for objects without it)")
+    if spec.calls:
+        o.append("    functions that are not translated (python call ↔ hand-written Lean term; `!` = can raise):")
+        for (rec, fname), (tpl, arg_tys, ret, raises) in spec.calls.items():
+            shown = tpl.format(*[f"‹{k}›" for k in range(len(arg_tys))], obj="·")
+            o.append(f"      {(rec + '.') if rec else ''}{fname}({', '.join(lean_ty(t) for t in arg_tys)}) ↔ {shown} : {lean_ty(ret)}{' !' if raises else ''}")
+    if tr.enum_uses:
+        o.append("    enum members (compared by identity):")
+        o += [f"      {k} ↔ {v}" for k, v in sorted(tr.enum_uses.items())]
     if tr.dropped:
         o.append("    dropped typing assertions:")
         o += [f"      {d}" for d in tr.dropped]
+    if tr.casts:
+        o.append("    typing.cast(T, e) rendered as e (the identity at run time):")
+        o += [f"      {d}" for d in tr.casts]
+    if tr.notes:
+        o.append("    notes:")
+        o += [f"      {d}" for d in tr.notes]
     o.append("-/")
     o.append("set_option linter.unusedVariables false")
     o.append(f"namespace {namespace}")
-    o.append("open OdxVerif")
+    o.append("open OdxVerif" + (f" {spec.open_ns}" if spec.open_ns else ""))
     o.append("")
+    if spec.prelude:
+        o.append("-- glue named by the spec of this translation (hand-written, part of the trusted rendering)")
+        o += list(spec.prelude)
+        o.append("")
     o.append(f"/-- `{func}`; `Except` = a Python exception -/")
     o.append(f"def {name}E {spec.binders} : Py.M ({lean_ty(tr.pure_ret)}) := do")
     o += tr.out
@@ -1071,6 +1505,119 @@ def render_staticlen(repo: Path) -> str:
                                    ["OdxVerif.Model.Codec", "OdxVerif.Model.PyRt"], rel, lean_name="staticBitLength")
 
 
+MUXKEY_SPEC = PureSpec(
+    params={"self": (("Rec", "Multiplexer"), None)},
+    binders="(cases : List MuxCaseD)",
+    attrs={("Multiplexer", "cases"): ("cases", ("List", ("Rec", "MuxCaseD")))},
+    # `_get_case_limits(case)` converts the LOWER-/UPPER-LIMIT texts with the key's physical type (`make_from`); for the integer
+    # switch keys the model follows it is the pair of integers the model stores in the case (abstract record interface)
+    calls={("Multiplexer", "_get_case_limits"): ("({0}.lower, {0}.upper)", [("Rec", "MuxCaseD")], tup(INT, INT), False)})
+
+
+def render_muxkey(repo: Path) -> str:
+    rel = "odxtools/multiplexer.py"
+    src = (Path(repo) / rel).read_text()
+    return translate_pure_function(src, "_get_default_case_key", MUXKEY_SPEC, "OdxVerif.Codec.Gen",
+                                   ["OdxVerif.Model.Codec", "OdxVerif.Model.PyRt"], rel, lean_name="defaultCaseKey",
+                                   cls_name="Multiplexer")
+
+
+def regenerate_muxkey(repo, verif):
+    return _write(Path(verif) / "lean" / "OdxVerif" / "Gen" / "MuxDefaultKey.lean", render_muxkey(Path(repo)))
+
+
+LAYER_KIND = ("Rec", "LayerKind")
+LAYER_ENUM = {"DiagLayerType": ("LayerKind", {"PROTOCOL": "protocol", "FUNCTIONAL_GROUP": "functionalGroup", "BASE_VARIANT": "baseVariant",
+                                              "ECU_VARIANT": "ecuVariant", "ECU_SHARED_DATA": "ecuSharedData"})}
+
+PRIO_SPEC = PureSpec(
+    params={"self": (LAYER_KIND, "self_")},
+    binders="(self_ : LayerKind)",
+    enums=LAYER_ENUM, open_ns="OdxVerif.Gen")
+
+# `ParentRef` is a type variable of the rendering: the three models that sort parent references (Inherit, Comparam, OdxLink) each
+# have their own record for "a parent reference with everything the recursion delivered for it"; of `pr.layer` only `variant_type`
+# is read (`kindOf pr`); `.inheritance_priority` is the property translated above
+PARENTREFS_SPEC = PureSpec(
+    params={"self": (("Rec", "HierarchyElement"), None), "reverse": (BOOL, "reverse")},
+    binders="{ParentRef : Type} (kindOf : ParentRef → LayerKind) (parent_refs : List ParentRef) (reverse : Bool)",
+    attrs={("HierarchyElement", "diag_layer_raw"): ("", ("Rec", "DiagLayerRaw")),
+           ("ParentRef", "layer"): ("{}", ("Rec", "ParentRef.layer")),
+           ("ParentRef.layer", "variant_type"): ("(kindOf {})", LAYER_KIND),
+           ("LayerKind", "inheritance_priority"): ("(← inheritancePriorityE {})", NAT)},
+    # DiagLayerRaw subclasses without PARENT-REFS (ECU-SHARED-DATA) have no attribute `parent_refs`: `parent_refs` is then []
+    getattr_defaults={("DiagLayerRaw", "parent_refs"): ("parent_refs", ("List", ("Rec", "ParentRef")), "[]")},
+    open_ns="OdxVerif.Gen")
+
+
+def render_inherit_prio(repo: Path) -> str:
+    rel1, rel2 = "odxtools/diaglayers/diaglayertype.py", "odxtools/diaglayers/hierarchyelement.py"
+    a = translate_pure_function((Path(repo) / rel1).read_text(), "inheritance_priority", PRIO_SPEC, "OdxVerif.Inherit.Gen",
+                                ["OdxVerif.Gen.LayerPrio", "OdxVerif.Model.PyRt"], rel1, cls_name="DiagLayerType")
+    b = translate_pure_function((Path(repo) / rel2).read_text(), "_get_parent_refs_sorted_by_priority", PARENTREFS_SPEC,
+                                "OdxVerif.Inherit.Gen", [], rel2, cls_name="HierarchyElement", lean_name="parentRefsSortedByPriority")
+    return a + "\n" + b
+
+
+def regenerate_inherit_prio(repo, verif):
+    return _write(Path(verif) / "lean" / "OdxVerif" / "Gen" / "InheritPrio.lean", render_inherit_prio(Path(repo)))
+
+
+ITEMKEY_SPEC = PureSpec(
+    params={"self": (("Rec", "NamedItemList"), None), "item": (("Rec", "Item"), "item")},
+    binders="(isDigit : Char → Bool) (kw : List Name) (item : Item)",
+    attrs={("Item", "short_name"): ("{}.sn", STR)},
+    # `c.isdigit()` for a one-character str `c` and `keyword.iskeyword` are tables of the interpreter: parameters of the rendering
+    methods={("Char", "isdigit"): ("(isDigit {})", BOOL)},
+    calls={(None, "iskeyword"): ("(kw.contains {0})", [STR], BOOL, False)},
+    open_ns="OdxVerif.Nil")
+
+
+def render_itemkey(repo: Path) -> str:
+    rel = "odxtools/nameditemlist.py"
+    return translate_pure_function((Path(repo) / rel).read_text(), "_get_item_key", ITEMKEY_SPEC, "OdxVerif.Nil.Gen",
+                                   ["OdxVerif.Model.Nil", "OdxVerif.Model.PyRt"], rel, cls_name="NamedItemList", lean_name="itemKey")
+
+
+def regenerate_itemkey(repo, verif):
+    # the model reads `str.isdigit` as `Char.isDigit` (ASCII short names): the two agree on ASCII in this interpreter
+    assert all(chr(c).isdigit() == (48 <= c <= 57) for c in range(128))
+    return _write(Path(verif) / "lean" / "OdxVerif" / "Gen" / "NilItemKey.lean", render_itemkey(Path(repo)))
+
+
+def limit_spec():
+    return PureSpec(
+        params={"self": (("Rec", "Limit"), None), "value": (("Rec", "Val"), "value")},
+        binders="(l : Limit) (value : Val)",
+        attrs={("Limit", "_value"): ("l.value", opt(("Rec", "Val"))),
+               ("Limit", "interval_type"): ("l.itype", opt(("Rec", "IType")))},
+        enums={"IntervalType": ("IType", {"OPEN": "open_", "CLOSED": "closed", "INFINITE": "infinite"})},
+        # odxtypes.compare_odx_values is not translated (it dispatches on the run-time type of its arguments): it stands for the
+        # model's `compareOdx`, whose error classes are embedded into `Py.Err` by `errOfCompu`
+        calls={(None, "compare_odx_values"): ("(← Py.call errOfCompu (compareOdx {0} {1}))", [("Rec", "Val"), ("Rec", "Val")], INT, True)},
+        prelude=["/-- error classes of the hand-written compu model as Python exceptions of the rendering -/",
+                 "def errOfCompu : Compu.Err → Py.Err",
+                 "  | .encode => .encodeError",
+                 "  | .decode => .decodeError",
+                 "  | .odx => .odxError",
+                 "  | .foreign => .foreign"])
+
+
+def render_limit(repo: Path) -> str:
+    rel = "odxtools/compumethods/limit.py"
+    src = (Path(repo) / rel).read_text()
+    up = translate_pure_function(src, "complies_to_upper", limit_spec(), "OdxVerif.Compu.Gen",
+                                 ["OdxVerif.Model.Compu", "OdxVerif.Model.PyRt"], rel, cls_name="Limit")
+    lo_spec = limit_spec()
+    lo_spec.prelude = []
+    lo = translate_pure_function(src, "complies_to_lower", lo_spec, "OdxVerif.Compu.Gen", [], rel, cls_name="Limit")
+    return up + "\n" + lo
+
+
+def regenerate_limit(repo, verif):
+    return _write(Path(verif) / "lean" / "OdxVerif" / "Gen" / "CompuLimit.lean", render_limit(Path(repo)))
+
+
 def _write(out: Path, new: str):
     if not out.exists() or out.read_text() != new:
         out.write_text(new)
@@ -1093,8 +1640,9 @@ if __name__ == "__main__":
     import sys
     repo = Path(sys.argv[1]) if len(sys.argv) > 1 else Path("/repo")
     if len(sys.argv) > 2:
-        print(regenerate_isotp(repo, Path(sys.argv[2])))
-        print(regenerate_staticlen(repo, Path(sys.argv[2])))
+        for regen in (regenerate_isotp, regenerate_staticlen, regenerate_muxkey, regenerate_limit, regenerate_inherit_prio,
+                      regenerate_itemkey):
+            print(regen(repo, Path(sys.argv[2])))
     else:
-        sys.stdout.write(render_isotp(repo))
-        sys.stdout.write(render_staticlen(repo))
+        for render in (render_isotp, render_staticlen, render_muxkey, render_limit, render_inherit_prio, render_itemkey):
+            sys.stdout.write(render(repo))
